@@ -363,7 +363,11 @@ func liveIds(vs ...*verifview.View) map[uint64]bool {
 	out := map[uint64]bool{}
 	for _, v := range vs {
 		for i := range v.Sessions {
-			out[v.Sessions[i].Id.Id] = true
+			// only sessions the API can serve (pseudo-clients share the id of
+			// their link and are not addressable): DESIGN section 6
+			if v.Sessions[i].Id.Reply == 0 {
+				out[v.Sessions[i].Id.Id] = true
+			}
 		}
 	}
 	return out
@@ -384,7 +388,7 @@ func c03Probes(v *verifview.View, nextId *uint64, now int64) []verifgen.Entry {
 	line := func(s verifview.Session, data string) {
 		*nextId++
 		now += 1e6
-		out = append(out, verifgen.Entry{Type: int64(robust.IRCFromClient), Id: *nextId, Session: s.Id.Id, Data: data, UnixNano: now, ClientMessageId: *nextId | 1, RemoteAddr: s.RemoteAddr, Cmd: strings.ToUpper(strings.SplitN(data, " ", 2)[0]), Role: "probe"})
+		out = append(out, verifgen.Entry{Type: int64(robust.IRCFromClient), Id: *nextId, Session: s.Id.Id, Data: data, UnixNano: now, ClientMessageId: *nextId | 1, RemoteAddr: s.RemoteAddr, Cmd: strings.ToUpper(strings.SplitN(data, " ", 2)[0]), Role: "probe", Gen: "probe"})
 	}
 	for _, a := range actors {
 		line(a, "WHOIS :")
@@ -576,7 +580,7 @@ func TestVerifC03(t *testing.T) {
 					va.ServerSessions, vb.ServerSessions = nil, nil
 					if va.Canon() != vb.Canon() {
 						for _, comp := range viewComponents(va, vb) {
-							rep.Violation("C03", "continuation:final-state:"+comp, fmt.Sprintf("%s differs after identical continuation (cut after entry %d)", comp, e.Id), map[string]interface{}{"gen": hpw, "cut": idx})
+							rep.Violation("C03", "continuation:final-state:"+comp, fmt.Sprintf("%s differs after identical continuation (cut after entry %d) %.900s", comp, e.Id, viewDetail), map[string]interface{}{"gen": hpw, "cut": idx})
 						}
 					}
 				}
@@ -629,11 +633,31 @@ func cutRoles(v *verifview.View) string {
 	return b(nickless, "n") + b(unreg, "u") + b(oper, "o") + b(link, "l") + b(pseudo, "p")
 }
 
+var viewDetail string
+
 // viewComponents names the parts of two views that differ.
 func viewComponents(a, b *verifview.View) []string {
 	j := func(v interface{}) string { x, _ := json.Marshal(v); return string(x) }
 	var out []string
 	if j(a.Sessions) != j(b.Sessions) {
+		detail := ""
+		for i := range a.Sessions {
+			if i >= len(b.Sessions) || j(a.Sessions[i]) != j(b.Sessions[i]) {
+				var ma, mb map[string]interface{}
+				json.Unmarshal([]byte(j(a.Sessions[i])), &ma)
+				if i < len(b.Sessions) {
+					json.Unmarshal([]byte(j(b.Sessions[i])), &mb)
+				}
+				detail = fmt.Sprintf("session %v:", a.Sessions[i].Id)
+				for k, v := range ma {
+					if j(v) != j(mb[k]) {
+						detail += fmt.Sprintf(" %s: %s vs %s;", k, j(v), j(mb[k]))
+					}
+				}
+				break
+			}
+		}
+		viewDetail = detail
 		out = append(out, "Sessions")
 	}
 	if j(a.Nicks) != j(b.Nicks) {
